@@ -15,7 +15,7 @@ def transcript(ans):
     return ([] if parts[1] == "-" else parts[1].split(",")), d
 
 
-def run_histories(o, ctx, tier, seed, tag, n_quick, n_thorough, flt=None, max_head=4096):
+def run_histories(o, ctx, tier, seed, tag, n_quick, n_thorough, flt=None, max_head=4096, stalls=0):
     t = "thorough" if tier in ("thorough", "search") else "quick"
     r = rng_for(seed, "conn-" + tag)
     n = n_quick if t == "quick" else n_thorough
@@ -28,8 +28,16 @@ def run_histories(o, ctx, tier, seed, tag, n_quick, n_thorough, flt=None, max_he
             continue
         lines.append(f"CONN max={max_head} script={script}")
         exps.append(exp); metas.append(meta)
+    # read time-outs: the client stalls inside a body (no model counterpart: the model has no clock)
+    for line, exp, meta in G.stall_cases(r, stalls if t == "quick" else stalls * 4):
+        lines.append(line); exps.append(exp); metas.append(meta)
     impl = C.run_sharded(ctx["kimpl"], lines, shards=min(C.NCPU, 16))
-    model = C.run_sharded(ctx["kmodel"], lines) if ctx.get("have_model") and ctx.get("conn_model") else None
+    # the Lean model of handle_connection replays the same script (each socket read sees at most the segment in flight)
+    model = C.run_sharded(ctx["kmodel"], [l if " rto=" not in l else "#" for l in lines]) if ctx.get("have_model") else None
+    if model is not None:
+        # '#' lines are skipped by kmodel: re-align
+        it = iter(model)
+        model = [None if " rto=" in l else next(it, "CRASH") for l in lines]
     known_hit = 0
     for i, (c, a, e, m) in enumerate(zip(lines, impl, exps, metas)):
         o.evaluations += 1
@@ -37,11 +45,11 @@ def run_histories(o, ctx, tier, seed, tag, n_quick, n_thorough, flt=None, max_he
         o.count("reqs=%d" % len(m["kinds"]))
         for k in m["kinds"]:
             o.count("kind=" + k)
-        if len(m["kinds"]) >= 2 or any(k in ("reqclose", "close", "hookdrop", "hookdropclose", "err", "errint", "errclose") for k in m["kinds"]):
+        if len(m["kinds"]) >= 2 or any(k in ("reqclose", "close", "hookdrop", "hookdropclose", "hookdropclosesend", "closeempty", "closer", "err", "errint", "errclose") or k.startswith("stall") for k in m["kinds"]):
             o.nontrivial.add(c)
         if len(o.samples) < 5 and i % 37 == 0:
             o.samples.append({"case": c[:400], "impl": a[:300], "expected": ",".join(e)[:300]})
-        if model is not None and model[i].split()[:2] != a.split()[:2] and len(o.mismatches) < 30:
+        if model is not None and model[i] is not None and model[i].split()[:2] != a.split()[:2] and len(o.mismatches) < 30:
             o.mismatches.append({"case": c, "impl": a, "model": model[i]})
         if got is None:
             o.violations.append({"case": c, "impl": a[:200], "why": "connection scenario crashed: " + a[:60]}); continue
@@ -67,7 +75,7 @@ def run_c07(o, ctx, tier, seed, replay=None):
         if "expected" in replay and ",".join(got or []) != replay["expected"]:
             o.violations.append({"case": replay["case"], "impl": impl[0], "expected": replay["expected"], "why": "replayed transcript still differs"})
         return
-    run_histories(o, ctx, tier, seed, "c07", 400, 12000)
+    run_histories(o, ctx, tier, seed, "c07", 400, 12000, stalls=10)
     # the same property in epoll mode (one-request jobs re-armed by readiness): keep-alive plans incl. "next request arrives
     # while the previous one is still being handled"
     from . import epoll as E
@@ -78,6 +86,22 @@ def run_c07(o, ctx, tier, seed, replay=None):
     for v in sub.violations:
         v["why"] = "epoll mode: " + v["why"]
         o.violations.append(v)
+    # a client that half-closes right after its last request (FIN readable together with the request) is still owed the response
+    p1 = b"GET /p/1/2 HTTP/1.1\r\n\r\n"
+    r200 = "R200:0:" + hx(b"1,2")
+    po = b"POST /echo HTTP/1.1\r\nContent-Length: 3\r\n\r\nabc"
+    plans = [("P:S:%s,r,e/S:e" % hx(p1), [r200 + ",EOF", "EOF"]),
+             ("P:s:%s,r,S:%s,r,e/S:e" % (hx(p1), hx(p1)), [r200 + "," + r200 + ",EOF", "EOF"]),
+             ("P:s:%s,r,S:%s,r,e/P:S:%s,r,e/S:e" % (hx(po), hx(p1), hx(po)), ["R200:0:" + hx(b"abc") + "," + r200 + ",EOF", "R200:0:" + hx(b"abc") + ",EOF", "EOF"])]
+    lines = ["SERVE mode=%s threads=%d plan=%s" % (m, th, pl) for pl, _ in plans for m in ("epoll", "serve") for th in (1, 2)]
+    wants = [w for _, w in plans for m in ("epoll", "serve") for th in (1, 2)]
+    impl = C.run_sharded(ctx["kimpl"], lines, shards=min(C.NCPU, len(lines)))
+    for c, a, w in zip(lines, impl, wants):
+        o.evaluations += 1
+        p = a.split()
+        got = p[1].split("/") if len(p) >= 2 and p[0] == "V" else None
+        if got != w and len(o.violations) < 30:
+            o.violations.append({"case": c, "impl": a[:300], "expected": "/".join(w), "why": "request sent together with the client's half-close: transcript %s, specification %s" % (a[:80], "/".join(w)[:80])})
 
 
 def known_c07(o, ctx, k):
@@ -93,11 +117,11 @@ def known_c07(o, ctx, k):
 def run_c09(o, ctx, tier, seed, replay=None):
     if replay is not None:
         return run_c07(o, ctx, tier, seed, replay)
-    closing = {"reqclose", "reqnoclose", "close", "err", "errint", "errclose", "hookdrop", "hookdropclose"}
-    run_histories(o, ctx, tier, seed, "c09", 300, 10000, flt=lambda m: bool(closing & set(m["kinds"])))
+    closing = {"reqclose", "reqnoclose", "close", "err", "errint", "errclose", "hookdrop", "hookdropclose", "hookdropclosesend", "closeempty", "closer"}
+    run_histories(o, ctx, tier, seed, "c09", 300, 10000, flt=lambda m: bool(closing & set(m["kinds"])), stalls=4)
 
 
-register("C07", lean=["Khttp.Props.C07", "Khttp.Props.C07Skeleton"], run=run_c07, known_check=known_c07,
+register("C07", lean=["Khttp.Props.C07", "Khttp.Props.C07Skeleton", "Khttp.Props.C14Skeleton"], run=run_c07, known_check=known_c07,
          rule="CONN histories: 1-4 requests per connection over 15 handler behaviours (read all / k bytes / nothing, respond before reading, swallow errors, hook Drop, close tokens, errors, reader responses) "
               "x fixed/chunked bodies (extensions, trailers, Content-Length overridden by chunked) x head/body segmentations incl. 1-byte segments and 'rest of body together with the next request after the response'. "
               "distinct_nontrivial = distinct histories with >= 2 requests or a closing outcome.",
@@ -279,6 +303,18 @@ def c05_cases(seed, tier):
                     else:
                         script = "s:%s,%sr,s:%s,r" % (hx(head), ("s:%s," % hx(body)) if body else "", hx(probe))
                     out.append(("CONN max=4096 script=" + script, exp, fr[0], fields))
+                # the same framing when the handler does NOT read the body (or reads only its first bytes) and the body arrives in
+                # pieces, some with the head and some later: the next request still starts right after the body the framing denotes
+                if fr[0] in ("chunked", "fixed") and len(body) >= 2 and (tier != "quick" or r.random() < 0.6):
+                    route, ans = r.choice([(b"/noread", b"noread"), (b"/read/1", body[:1] if fr[0] == "fixed" else b"h"), (b"/nothing-here", None)])
+                    head2 = head.replace(b"POST /echo ", b"POST " + route + b" ", 1)
+                    cut = r.randrange(1, len(body))
+                    cut2 = r.randrange(cut, len(body))
+                    pieces = [body[:cut], body[cut:cut2], body[cut2:]]
+                    first = "s:%s" % hx(head2 + pieces[0]) if r.random() < 0.6 else "s:%s,s:%s" % (hx(head2), hx(pieces[0]))
+                    script = first + "".join(",s:%s" % hx(p_) for p_ in pieces[1:] if p_) + ",r,s:%s,r" % hx(probe)
+                    exp2 = [("R200:0:" + hx(ans)) if ans is not None else "R404:0:e", "R200:0:" + hx(b"1,2")]
+                    out.append(("CONN max=4096 script=" + script, exp2, fr[0] + "-unread", fields))
     return out
 
 
